@@ -245,3 +245,48 @@ def run(ctx):
     for frag, what in (("204", "204"), ("304", "304"), ("100 <=", "1xx"), ("HEAD", "HEAD")):
         ok = any(frag in a for a in atoms_seen)
         ctx.ob(R6, fi.qual, f"{what} is tested", ok, "" if ok else f"{what} responses are no longer treated as body-less")
+
+    # ------------------------------------------------------------------ R7 response-side: an unclean body read never recycles the connection (shared with C01)
+    R7 = ctx.rule("C03-R7", "a connection whose response body was not read cleanly to its end never goes back to the pool alive (shared with C01): every stdlib read happens inside the error catcher (C01-R5) and every unclean exit of the catcher - transport error, interrupt, or a consumer abandoning a chunked stream half-way (GeneratorExit) - closes the connection before the slot is returned (C01-R6): otherwise the unread rest of the body answers the next request", "E4 (shared with C01)")
+    from .c01_more import run as _c01more
+
+    before = len(ctx.obs)
+    rules_before = dict(ctx.rules)
+    _c01more(ctx)
+    keep_rules = ("C01-R5", "C01-R6")
+    ctx.obs[before:] = [o for o in ctx.obs[before:] if o.rule in keep_rules]
+    for r in list(ctx.rules):
+        if r.startswith("C01-") and r not in keep_rules and r not in rules_before:
+            ctx.rules.pop(r)
+    ctx.ob(R7, "urllib3.response.HTTPResponse", f"{len(ctx.obs) - before} shared obligations (C01-R5, C01-R6)", True)
+
+    # ------------------------------------------------------------------ R8 an early release never recycles a connection with an unread body (F15)
+    R8 = ctx.rule("C03-R8", "released early: on every path of HTTPResponse.release_conn that gives the connection back, the body is known to be complete (the stdlib response reports closed, or nothing is left to read, or there is no wrapped response) - or the connection was closed first; otherwise the rest of a partially read body answers the next request on that connection", "E4 on release_conn")
+    from .c01_more import RespRule, _resp_seeds
+    from ..events import evs
+
+    rfi = m.method(f"{RS}.HTTPResponse", "release_conn")
+    rrule = RespRule()
+    seeds = _resp_seeds()
+    seeds[("self", "_connection")] = AV("obj", "conn", truth=True, none=False)
+    seeds[("self", "_pool")] = AV("obj", "pool", truth=True, none=False)
+    outs, it = run_function(m, rfi, rrule, f"{RS}.HTTPResponse", seeds=seeds)
+    ctx.states += it.budget.steps
+    gives = [o for o in outs if "put" in evs(o)]
+    ctx.sites(R8, len(gives), 1, "paths of release_conn that give the connection back")
+    seen8 = set()
+    for o in gives:
+        seq = evs(o)
+        closed_first = "conn_close" in seq and seq.index("conn_close") < seq.index("put")
+        exhausted = o.st.facts.get("fp-exhausted", (None, None))[0] is True or bool(o.st.ts.get("fp_closed"))
+        nothing_left = o.st.ts.get(("cmp", "field:self.length_remaining", "==", "0")) is True
+        orig = o.st.facts.get("f:_orig", (None, None))
+        no_wrapped = orig[0] is False or orig[1] is True
+        k = (closed_first, exhausted, nothing_left, no_wrapped)
+        if k in seen8:
+            continue
+        seen8.add(k)
+        ok = closed_first or exhausted or nothing_left or no_wrapped
+        ctx.ob(R8, rfi.qual, f"give with closed-first={closed_first} response-closed={exhausted} nothing-left={nothing_left} no-wrapped-response={no_wrapped}", ok,
+               "" if ok else "a live connection goes back to the pool although its response body may be unread: read(n); release_conn(); then the next request on the pool is answered with the rest of this body",
+               witness=o.st.witness(), node=rfi.node)
